@@ -7,7 +7,7 @@
 From Coq Require Import List Arith Bool Lia QArith Qcanon.
 From VZ Require Import Model.K02_Windows Model.K03_Cooc Model.K03_CoocSpec Model.K03_Exec
      Proofs.K03_BigSum Proofs.K02_Windows_proofs Proofs.K02_Qc_proofs Proofs.K03_Cooc_proofs
-     Proofs.K03_Drivers_proofs Proofs.K03_Blocks_proofs Proofs.K03_Multi_proofs.
+     Proofs.K03_Drivers_proofs Proofs.K03_Blocks_proofs Proofs.K03_Multi_proofs Proofs.K03_Qc_proofs.
 Import ListNotations.
 Open Scope nat_scope.
 
@@ -65,11 +65,11 @@ Print Assumptions C03_token.
 
 (* with non-negative mix weights and kernel functions the positivity filter of the drivers drops nothing *)
 Theorem C03_token_nonneg : forall (blocks : list (block QcK)) nw (d : list nat) r p i c,
-  Forall (fun b => (0 <= b_mix b)%Qc /\ forall k, (0 <= b_kf b k)%Qc) blocks -> p < length d ->
+  Forall (fun b : block QcK => (0 <= (b_mix b : Qc))%Qc /\ forall k, (0 <= (b_kf b k : Qc))%Qc) blocks -> p < length d ->
   p_cell (length d) (fun q => nth q d 0) nw (token_pblocks blocks r p) i c =
   match nth_error (token_pblocks blocks r p) i with
-  | Some b => isum (length d) (fun q => if p_in b q && Nat.eqb (nth q d 0) c
-                then (p_weight (length d) (fun q => nth q d 0) b q / p_total (length d) (fun q => nth q d 0) nw (token_pblocks blocks r p))%Qc
+  | Some b => @isum QcK (length d) (fun q => if p_in b q && Nat.eqb (nth q d 0) c
+                then (p_weight (length d) (fun q => nth q d 0%nat) b q / p_total (length d) (fun q => nth q d 0%nat) nw (token_pblocks blocks r p))%Qc
                 else 0%Qc)
   | None => 0%Qc
   end.
@@ -159,7 +159,8 @@ Theorem C03_timed_shift_Z : forall (blocks : list (tblock QcK Z)) nw n docs (s :
   timed_events zabsdiff 0%Z blocks nw n (map (map (fun it => (fst it, (snd it + s)%Z))) docs)
   = timed_events zabsdiff 0%Z blocks nw n docs.
 Proof.
-  intros. apply (timed_events_shift (K:=QcK)). intros a b. unfold zabsdiff. f_equal. lia.
+  intros. apply (timed_events_shift (K:=QcK) Z zabsdiff 0%Z 0%Z (fun t => (t + s)%Z)).
+  intros a b. unfold zabsdiff. f_equal. lia.
 Qed.
 Print Assumptions C03_timed_shift_Z.
 
@@ -168,12 +169,12 @@ Theorem C03_multiset : forall (K : carrier), carrier_laws K ->
   forall (blocks : list (block K)) nw n docs r c i,
   Forall (Forall (Forall (fun t => t < n))) docs -> c < n ->
   sumby (multi_events blocks nw n docs) r (c + i * n) = multi_spec blocks nw docs r c i.
-Proof. intros K HK. exact (multi_cooc HK). Qed.
+Proof. exact multi_cooc. Qed.
 Print Assumptions C03_multiset.
 
 Theorem C03_multiset_no_cross_boundary : forall (K : carrier) (blocks : list (block K)) nw n docs1 docs2,
   multi_events blocks nw n (docs1 ++ docs2) = multi_events blocks nw n docs1 ++ multi_events blocks nw n docs2.
-Proof. intros K. exact multi_events_app. Qed.
+Proof. exact multi_events_app. Qed.
 Print Assumptions C03_multiset_no_cross_boundary.
 
 (* ---------------- non-vacuity ---------------- *)
@@ -210,6 +211,6 @@ Example C03_ngram_example :
 Proof. split; vm_compute; reflexivity. Qed.
 
 Example C03_multiset_example :
-  show (sumby (multi_events [ex_after] false 3 [[[0; 1]; [2]; [1; 0]]]) 0 (1 + 0 * 3)) = (5%Z, 4%Z) /\
-  show (multi_spec [ex_after] false [[[0; 1]; [2]; [1; 0]]] 0 1 0) = (5%Z, 4%Z).
+  show (sumby (multi_events [ex_after] false 3 [[[0; 1]; [2]; [1; 0]]]) 0 (1 + 0 * 3)) = (9%Z, 4%Z) /\
+  show (multi_spec [ex_after] false [[[0; 1]; [2]; [1; 0]]] 0 1 0) = (9%Z, 4%Z).
 Proof. split; vm_compute; reflexivity. Qed.
